@@ -173,9 +173,12 @@ def load(relpath, shims=None, div=False, ifconv=False, only=None, extra=None, mo
     saved = {k: sys.modules.get(k) for k in shims}
     sys.modules.update(shims)
     modname = modname or ('verif_loaded.' + relpath[:-3].replace('/', '.'))
-    ns = {'__name__': modname, '__file__': path, '__div': symx.exact_div, '__ite': symx.ite_call}
+    holder = types.ModuleType(modname)      # registered so that dataclasses / pickling find the defining module
+    ns = holder.__dict__
+    ns.update({'__name__': modname, '__file__': path, '__div': symx.exact_div, '__ite': symx.ite_call})
     if extra:
         ns.update(extra)
+    sys.modules[modname] = holder
     try:
         exec(compile(tree, path, 'exec'), ns)
     finally:
